@@ -40,6 +40,12 @@ fn tuple_consistent(ops: &[DiffOp]) -> Result<(), String> {
 }
 
 fn check_seq(c: &SeqCase, obs: &mut Obs) -> Verdict {
+    // an aborted diff earlier on this thread (hook error inside Compact's replay) must not leak into
+    // this capture
+    if (c.old.len() + c.new.len()) % 4 == 1 {
+        let _ = guard(|| poison_thread(alg_of(c.alg), &c.new, &c.old, c.old.len() % 3));
+        obs.class("after an aborted diff on the same thread");
+    }
     let ops = match capture(c, None) {
         Ok(o) => o,
         Err(p) => return Verdict::Fail(format!("capture: {}", p)),
